@@ -7,8 +7,8 @@
                                        Insert/Update/Delete (accumulate an edit or return an error; under tag verif the
                                        n-th call can be made to fail), DiscardChanges (clear the accumulator; unless
                                        the error is ignorable: restore the data and set discardChanges),
-                                       StatementComplete (ApplyEdits; when that FAILS the method returns nil without
-                                       clearing or publishing), Close (publish the snapshot when discardChanges,
+                                       StatementComplete (ApplyEdits; when that fails the error is returned, nothing is
+                                       cleared or published), Close (publish the snapshot when discardChanges,
                                        else ApplyEdits + publish),
             sql/rowexec (triggers)   : a BEFORE INSERT trigger body runs, per row, as its own complete statement on
                                        the other table before the row reaches the editor; triggerRollbackIter asks
@@ -58,15 +58,16 @@ Definition discard_changes (ed : editor) (ignorable : bool) : editor :=
   then {| edited := edited ed; initial := initial ed; acc := []; discard := discard ed; published := published ed |}
   else {| edited := initial ed; initial := initial ed; acc := []; discard := true; published := published ed |}.
 
-(* StatementComplete returns nil in both cases.  The accumulator edits the session's TableData object in place
+(* StatementComplete: ApplyEdits, Clear, publish; an ApplyEdits failure is RETURNED (since /repo 647a7064d; it used to
+   be swallowed) with the accumulator left as it is.  The accumulator edits the session's TableData object in place
    (sess.editAccumulator is built over sess.tableData), so a failed ApplyEdits is visible as it was left. *)
-Definition statement_complete_at (n : nat) (ed : editor) : editor :=
+Definition statement_complete_at (n : nat) (ed : editor) : bool * editor :=
   match apply_opt n (edited ed) (acc ed) with
-  | (Some t, _) => {| edited := t; initial := initial ed; acc := []; discard := discard ed; published := t |}
-  | (None, t) => {| edited := t; initial := initial ed; acc := acc ed; discard := discard ed; published := t |}
+  | (Some t, _) => (false, {| edited := t; initial := initial ed; acc := []; discard := discard ed; published := t |})
+  | (None, t) => (true, {| edited := t; initial := initial ed; acc := acc ed; discard := discard ed; published := t |})
   end.
 
-Definition statement_complete (ed : editor) : editor := statement_complete_at 1 ed.
+Definition statement_complete (ed : editor) : bool * editor := statement_complete_at 1 ed.
 
 (* tableEditor.Close: error flag, editor *)
 Definition close_editor_at (n : nat) (ed : editor) : bool * editor :=
@@ -99,15 +100,19 @@ Fixpoint feed (ed : editor) (cs : list call) : editor * option bool :=
 
 Inductive result := ROk | RErr.
 
-(* one statement through TableEditorIter: returns the reported result and what the session holds afterwards *)
+(* one statement through TableEditorIter: returns the reported result and what the session holds afterwards.
+   Close: DiscardChanges on a non-ignorable error of the row loop, else StatementComplete (its error is reported);
+   in every case the inner Close follows and reaches tableEditor.Close (which re-runs ApplyEdits unless discarding) *)
 Definition run_stmt (t : T) (cs : list call) : result * T :=
   let ed0 := statement_begin (open_editor t) in
   let '(ed1, err) := feed ed0 cs in
   match err with
   | Some false => let '(_, ed3) := close_editor (discard_changes ed1 false) in (RErr, published ed3)
-  | Some true => let '(_, ed3) := close_editor (statement_complete ed1) in (RErr, published ed3)
-  | None => let '(cerr, ed3) := close_editor (statement_complete ed1) in
-            ((if cerr then RErr else ROk), published ed3)
+  | Some true => let '(_, ed2) := statement_complete ed1 in
+                 let '(_, ed3) := close_editor ed2 in (RErr, published ed3)
+  | None => let '(serr, ed2) := statement_complete ed1 in
+            let '(cerr, ed3) := close_editor ed2 in
+            ((if serr || cerr then RErr else ROk), published ed3)
   end.
 
 Definition good_edits (cs : list call) : list E :=
@@ -118,16 +123,20 @@ Definition all_good (cs : list call) : bool := forallb (fun c => match c with CB
 
 (* ---- CheckpointingTableEditorIter (INSERT IGNORE): StatementBegin / StatementComplete around EVERY row; an
    ignorable error discards that row only and the loop goes on; any other error discards that row and stops ---- *)
-(* [n] numbers the ApplyEdits calls of the whole statement (one per completed row, then the one in Close) *)
+(* [n] numbers the ApplyEdits calls of the whole statement (one per completed row, then the one in Close).  A
+   StatementComplete error is returned by Next like a row error, but nothing is discarded *)
 Fixpoint feed_ckpt (ed : editor) (n : nat) (cs : list call) : editor * option bool * nat :=
   match cs with
   | [] => (ed, None, n)
   | c :: t =>
       let ed0 := statement_begin ed in
+      let complete (e0 : editor) :=
+        let '(serr, ed1) := statement_complete_at n e0 in
+        if serr then (ed1, Some false, S n) else feed_ckpt ed1 (S n) t in
       match c with
-      | CGood e => feed_ckpt (statement_complete_at n (accumulate ed0 e)) (S n) t
-      | CHandled => feed_ckpt (statement_complete_at n ed0) (S n) t
-      | CFlush => feed_ckpt (statement_complete_at n (flush ed0)) (S n) t
+      | CGood e => complete (accumulate ed0 e)
+      | CHandled => complete ed0
+      | CFlush => complete (flush ed0)
       | CBad true => feed_ckpt (discard_changes ed0 true) n t
       | CBad false => (discard_changes ed0 false, Some false, n)
       end
@@ -139,9 +148,9 @@ Definition run_stmt_ckpt (t : T) (cs : list call) : result * T :=
   match err with
   | Some _ => let '(_, ed2) := close_editor_at n ed1 in (RErr, published ed2)
   | None =>
-      let ed_eof := statement_complete_at n (statement_begin ed1) in
+      let '(serr, ed_eof) := statement_complete_at n (statement_begin ed1) in
       let '(cerr, ed2) := close_editor_at (S n) ed_eof in
-      ((if cerr then RErr else ROk), published ed2)
+      ((if serr || cerr then RErr else ROk), published ed2)
   end.
 
 (* fault injection (memory.VerifResetFault k): the k-th call (1-based) returns an error *)
@@ -179,9 +188,11 @@ Definition run_stmt_trig (t other : T) (cs : list (option A * call)) : result * 
   let '(ed1, other', err) := feed_trig ed0 other cs in
   match err with
   | Some false => let '(_, ed3) := close_editor (discard_changes ed1 false) in (RErr, published ed3, other')
-  | Some true => let '(_, ed3) := close_editor (statement_complete ed1) in (RErr, published ed3, other')
-  | None => let '(cerr, ed3) := close_editor (statement_complete ed1) in
-            ((if cerr then RErr else ROk), published ed3, other')
+  | Some true => let '(_, ed2) := statement_complete ed1 in
+                 let '(_, ed3) := close_editor ed2 in (RErr, published ed3, other')
+  | None => let '(serr, ed2) := statement_complete ed1 in
+            let '(cerr, ed3) := close_editor ed2 in
+            ((if serr || cerr then RErr else ROk), published ed3, other')
   end.
 
 End Editor.
